@@ -42,4 +42,37 @@ TEXT = {
                 "DESIGN.md 5/C18", "stateful PBT; counter-delta model + capacity probes"),
 }
 
+TEXT.update({
+    "C08": dict(engine="hist+comp", ref="DESIGN.md 5/C08", note=HIST_NOTE,
+                level="(a) two sibling allocators of the catalogue on one slab (zero-gap placement included): "
+                      "try_deallocate of a sibling's live pointer must be rejected and change nothing; own pointers "
+                      "accepted. (b) fallback compositions over logging leaves: every release reaches the leaf that "
+                      "served the allocation with the same shape, across default-full/default-empty phases.",
+                technique="stateful PBT; ownership oracle from the shadow model + logging-leaf call-log oracle"),
+    "C09": dict(engine="comp", ref="DESIGN.md 5/C09",
+                note="Trusted: logging leaves / slab in /verif. Compositions are a compile-time catalogue of 20 "
+                     "(depth <= 3) plus typed helpers over a 9-type catalogue, not all C++ programs; instantiation "
+                     "probes cover member instantiability.",
+                level="Adapter compositions over logging leaves: each user request reaches a leaf as exactly one "
+                      "request (>= bytes, >= alignment), each release exactly once to the same leaf with identical "
+                      "kind/count/size/alignment; trackers see each success once in the documented order; plus "
+                      "compile-only instantiation probes of every adapter member.",
+                technique="stateful PBT over a composition catalogue; call-log oracle in instrumented leaves; compile probes"),
+    "C16": hist("A valid generated prefix history followed by one covered invalid release executed in a forked "
+                "child (handler must see untouched capacity figures, or the child must abort); valid histories in "
+                "base/dbg must never trigger the invalid-pointer handler.",
+                "DESIGN.md 5/C16", "stateful PBT + fork-per-bad-call fault injection; handler-capture oracle"),
+    "C17": dict(engine="hist+fence", ref="DESIGN.md 5/C17", note=HIST_NOTE,
+                level="Generated write sets into/around nodes of the four low-level allocators in fence 0/8/16 builds "
+                      "(every offset inside the configured fence, every value != fence pattern); fill patterns of "
+                      "fresh and released memory checked on every allocation/release of the history target.",
+                technique="PBT over generated write sets; recording buffer-overflow handler + byte-pattern oracle"),
+    "C19": dict(engine="pure", ref="DESIGN.md 5/C19",
+                note="Trusted: the loop/division reference implementations in targets/pure.cpp.",
+                level="Arithmetic helpers compared with definitional references: complete small domain and "
+                      "boundary classes enumerated on every run, random 64-bit inputs on top; bucket selection for "
+                      "every size of 8 maxima x 3 list types x 2 policies.",
+                technique="exhaustive enumeration of a bounded domain + random PBT against a reference implementation"),
+})
+
 NOT_APPLICABLE = {}
